@@ -54,7 +54,9 @@ class Gen:
         self.has_await = False
 
     def cond(self):
-        return self.rng.randrange(4)
+        # 9 = the condition bit is selected by a RUN-TIME index (`self.c[self.i]`): the reference keeps a
+        # compiler-generated index temporary, which an `await` captures in the state before the polling state
+        return 9 if self.rng.random() < 0.12 else self.rng.randrange(4)
 
     def helper(self, d):
         """shape of a helper function: ('ret',) | ('none',) | ('if', cond, shape, shape, tail-shape|None)"""
@@ -171,6 +173,27 @@ def systematic():
         progs.append({"body": [("match", [[("defref", 0)], []], None), ("use", 0, 2, form)], "async": False})
         progs.append({"body": [("defref", 0), ("await", 1), ("use", 0, 3, form)], "async": True})
         progs.append({"body": [("defref", 0), ("if", [(1, [("await", 2)])], None), ("use", 0, 3, form)], "async": True})
+    # a definition FOLLOWED by another branching construct inside one arm, used after the enclosing construct
+    # (the analysis must extend, not replace, the set of definitely written intermediates when it leaves the inner one)
+    inners = [("if", [(1, [])], None), ("if", [(1, [("use", 0, 1)])], []), ("match", [[], []], None),
+              ("match", [[("use", 0, 1)], []], []), ("for", [(0, []), (1, [])], None), ("for", [(0, []), (1, [])], [])]
+    for inner in inners:
+        arm = [("def", 0), inner]
+        for outer in (("if", [(0, arm)], None), ("if", [(0, arm)], []), ("if", [(0, []), (2, arm)], []),
+                      ("match", [arm, []], None), ("match", [[], arm], []), ("for", [(0, arm), (1, [])], None)):
+            progs.append({"body": [outer, ("use", 0, 0)], "async": False})
+        # safe counterparts: every arm defines (then the inner construct), or the definition precedes everything
+        progs.append({"body": [("if", [(0, arm)], arm), ("use", 0, 0)], "async": False})
+        progs.append({"body": [("match", [arm, arm], arm), ("use", 0, 0)], "async": False})
+        progs.append({"body": [("def", 0), ("if", [(0, [inner])], None), ("use", 0, 0)], "async": False})
+    # conditions selected by a run-time index: polled in a later state (await) / evaluated in the same state (if)
+    progs.append({"body": [("await", 9), ("def", 0), ("use", 0, 0)], "async": True})
+    progs.append({"body": [("def", 0), ("use", 0, 0), ("await", 9), ("def", 0), ("use", 0, 1)], "async": True})
+    progs.append({"body": [("if", [(1, [("await", 9)])], None), ("def", 0), ("use", 0, 0)], "async": True})
+    progs.append({"body": [("await", 1), ("await", 9), ("def", 0), ("use", 0, 2)], "async": True})
+    progs.append({"body": [("if", [(9, [("def", 0), ("use", 0, 0)])], None)], "async": False})
+    progs.append({"body": [("if", [(0, [("def", 0), ("use", 0, 0)]), (9, [("def", 0), ("use", 0, 1)])], [])], "async": False})
+    progs.append({"body": [("await", 0), ("if", [(9, [("def", 0), ("use", 0, 0)])], None)], "async": True})
     # a locally constructed Signal (its alias temporary) defined in one branch / all branches, used afterwards or in another branch
     for form in USE_FORMS[:5]:
         progs.append({"body": [("if", [(0, [("defsig", 0)])], None), ("use", 0, 1, form)], "async": False})
@@ -313,10 +336,10 @@ def render(stmts, ind):
         elif k == "defref":
             out.append(f"{pad}t{s[1]} = self.ov[self.i]")
         elif k == "await":
-            out.append(f"{pad}await self.c[{s[1]}]")
+            out.append(f"{pad}await self.c[{'self.i' if s[1] == 9 else s[1]}]")
         elif k == "if":
             for i, (c, body) in enumerate(s[1]):
-                out.append(f"{pad}{'if' if i == 0 else 'elif'} self.c[{c}]:")
+                out.append(f"{pad}{'if' if i == 0 else 'elif'} self.c[{'self.i' if c == 9 else c}]:")
                 out += render(body, ind + 1) or [f"{pad}    pass"]
             if s[2] is not None:
                 out.append(f"{pad}else:")
